@@ -155,9 +155,9 @@ def finish(pid, spec, tier, seed, t0, audit, runs, nviol, notes, extra):
     stats, samples, branches = {}, [], {}
     lines = 0
     for r in runs:
-        for k, n in r["stats"].get("stats", {}).items():
+        for k, n in (r["stats"].get("stats") or {}).items():
             stats[k] = stats.get(k, 0) + n
-        for s in r["stats"].get("samples", []):
+        for s in (r["stats"].get("samples") or []):
             if len(samples) < 4:
                 samples.append(s)
         for k, n in r["branches"].items():
